@@ -296,6 +296,15 @@ func runLP(t *simrt.Tape, rc *RunCtx) *Violation {
 		A = [][]float64{{-3, -3, -2, 1, 0, 2}, {-3, -3, -3, 3, -1, 0}, {-3, -3, -3, -3, 2, 2}, {-3, -3, -3, -2, 1, -3}}
 		b = []float64{-5, -6, -12, -11}
 		c = []float64{-4, -4, -4, -4, -4, -4}
+		if t.Choose(simrt.KWorkload, 2) == 1 {
+			// finding 49: a square program whose solution (0, 2, 2, 0) comes
+			// out of the linear solve with -1.05e-13 for a zero (thorough
+			// tier, seed 73, one program in 10^6)
+			m, n = 4, 4
+			A = [][]float64{{3, 2, 3, -1}, {-2, -3, 1, -2}, {-2, 3, 2, 1}, {-3, 2, 3, 0}}
+			b = []float64{10, -4, 10, 10}
+			c = []float64{-4, -4, -4, -4}
+		}
 		rc.probe("lp_corpus_program", 1)
 	}
 	rc.Instance["program"] = lpShow(c, A, b)
